@@ -28,7 +28,7 @@ from ..ref import lazy
 
 PROPERTY = 'C10'
 LEVEL = 'exploration'
-RULE = ('families: IFS = 25 simple conditions (literals, a cell over 7 '
+RULE = ('families: IFS = 30 simple conditions (literals, a cell over 9 '
         'values, SPY-wrapped cell, A1>1) x 18 x 19 branch forms (constants, '
         'cell, SPY, error value, unknown function, circular reference, SPY '
         'around each, unknown function around a SPY, nested IF, AND/OR of '
@@ -72,10 +72,12 @@ ABSENT = object()
 CONTENT = {'T': True, 'F': False, '0': 0, '2': 2, '-1': -1, '.5': 0.5,
            'B': ABSENT, 'E': '=1/0', 'N': '=NA()',
            # a cell whose value is IF's default branch (FALSE)
-           'D': '=IF(FALSE,5)'}
+           'D': '=IF(FALSE,5)',
+           # non-zero numbers far below 1e-15: TRUE like any non-zero number
+           'S': 1e-16, 'M': -2.5e-300}
 REFVAL = {'T': True, 'F': False, '0': 0.0, '2': 2.0, '-1': -1.0, '.5': 0.5,
           'B': None, 'E': lazy.Err('#DIV/0!'), 'N': lazy.Err('#N/A'),
-          'D': False}
+          'D': False, 'S': 1e-16, 'M': -2.5e-300}
 T5 = ('T', 'F', '0', '2', 'B')
 T6 = ('T', 'F', '0', '2', 'B', 'E', 'D')
 
@@ -441,7 +443,8 @@ def simple_conditions():
     for text, v in (('TRUE', True), ('FALSE', False), ('0', 0.0),
                     ('2', 2.0), ('-1', -1.0), ('0.5', 0.5)):
         out.append(('lit', ('lit', text, v), {}))
-    for tok in ('T', 'F', '0', '2', '-1', '.5', 'B'):
+    out.append(('lit', ('lit', '1E-16', 1e-16), {}))
+    for tok in ('T', 'F', '0', '2', '-1', '.5', 'B', 'S', 'M'):
         out.append(('ref', ('ref', 'A1'), {'A1': tok}))
         out.append(('spyref', S(0, ('ref', 'A1')), {'A1': tok}))
     for tok in ('T', 'F', '0', '2', 'B'):
@@ -519,7 +522,7 @@ def nested_shapes(depth_lo, depth_hi):
 def andor_scalar_kinds():
     """Argument kinds for position i (own cell): (name, tree-maker, token)."""
     kinds = []
-    for tok in ('T', 'F', '0', '2', 'B', 'E', 'N', 'D'):
+    for tok in ('T', 'F', '0', '2', 'B', 'E', 'N', 'D', 'S'):
         kinds.append(('ref' + tok, None, tok))
     for name, tree in (('TRUE', LTRUE), ('FALSE', LFALSE),
                        ('0', ('lit', '0', 0.0)), ('2', ('lit', '2', 2.0)),
@@ -688,6 +691,62 @@ def judge_flip(pname, tname, seq, ctx):
                  'on the same evaluator' % ('/'.join(seq), AT))
 
 
+# -- the first call of a function in a process --------------------------------
+# Laziness must not depend on how many arguments the FIRST call of IF / AND /
+# OR in the process happened to have.  Each sequence runs in a fresh
+# interpreter: (formula, cells, expected observation, spies that may not run).
+FIRST_OPENERS = (
+    ('IF-2', '=IF(A1,5)', {'A1': True}, 'num:5.0'),
+    ('IF-1', '=IF(A1)', {'A1': True}, 'bool:True'),
+    ('AND-1', '=AND(A1)', {'A1': True}, 'bool:True'),
+    ('OR-1', '=OR(A1)', {'A1': False}, 'bool:False'),
+    ('IF-3', '=IF(A1,5,7)', {'A1': False}, 'num:7.0'),
+)
+FIRST_PROBES = (
+    ('if-else-poison', '=IF(A1,SPY(1,5),SPY(2,NOSUCH()))', {'A1': True},
+     'num:5.0', [2]),
+    ('if-then-poison', '=IF(A1,SPY(1,1/0),SPY(2,7))', {'A1': False},
+     'num:7.0', [1]),
+    ('if-else-cycle', '=IF(A1,5,Z1+1)', {'A1': 2}, 'num:5.0', []),
+    ('and-short', '=AND(A1,SPY(3,NOSUCH()))', {'A1': False}, 'bool:False',
+     [3]),
+    ('or-short', '=OR(A1,SPY(4,NOSUCH()))', {'A1': True}, 'bool:True', [4]),
+    ('and-3', '=AND(A1,A2,SPY(5,NOSUCH()))', {'A1': True, 'A2': 0},
+     'bool:False', [5]),
+)
+
+
+def run_firstcall(ctx):
+    import json
+    import os
+    import subprocess
+    import sys
+    root = os.path.dirname(os.path.dirname(os.path.dirname(
+        os.path.abspath(__file__))))
+    for oname, oform, ocells, owant in FIRST_OPENERS:
+        seq = [[oform, ocells]] + [[f, c] for _, f, c, _, _ in FIRST_PROBES]
+        p = subprocess.run(
+            [sys.executable, '-m', 'xlmc.checks.c10_proc', json.dumps(seq)],
+            cwd=root, stdout=subprocess.PIPE, stderr=subprocess.DEVNULL,
+            text=True, timeout=300)
+        inputs = {'kind': 'firstcall'}
+        tags = ['family:first-call-in-process', 'opener:' + oname]
+        if p.returncode != 0 or not p.stdout.strip():
+            ctx.fail('C10/FIRST/%s/process' % oname, tags, inputs,
+                     'sequence runs', 'exit %s' % p.returncode)
+            continue
+        res = json.loads(p.stdout.strip().splitlines()[-1])
+        ctx.check('C10/FIRST/%s/opener' % oname, res[0][0], owant, tags,
+                  inputs, False)
+        for (pname, f, c, want, forbidden), (obs, ran) in zip(FIRST_PROBES,
+                                                            res[1:]):
+            got = obs + (' ran-unselected:%s' % sorted(set(ran) & set(
+                forbidden)) if set(ran) & set(forbidden) else '')
+            ctx.check('C10/FIRST/%s/%s' % (oname, pname), got, want,
+                      tags + ['probe:' + pname], inputs, True,
+                      note='fresh process: %s then %s' % (oform, f))
+
+
 # -- plan / shards -----------------------------------------------------------
 def plan(tier):
     shards = []
@@ -716,6 +775,7 @@ def plan(tier):
                        'hi': min(nforms, lo + chunk)})
     for pname in sorted(FLIP_POISON):
         shards.append({'fam': 'FLIP', 'tier': tier, 'poison': pname})
+    shards.append({'fam': 'FIRST', 'weight': 5})
     ncall = len(call_cases(tier))
     for lo in range(0, ncall, 500):
         shards.append({'fam': 'CALL', 'tier': tier, 'lo': lo,
@@ -838,6 +898,10 @@ def run_shard(shard, ctx):
         name, args, env = forms[shard['lo']]
         ctx.sample({'family': 'ANDOR', 'formula': '=' + lazy.render(
             ('and', [S(i, a) for i, a in enumerate(args)])), 'cells': env})
+    elif fam == 'FIRST':
+        run_firstcall(ctx)
+        ctx.sample({'family': 'FIRST', 'fresh process': [
+            FIRST_OPENERS[0][1], FIRST_PROBES[0][1]]})
     elif fam == 'FLIP':
         for pname, tname, seq in flip_cases(shard['tier']):
             if pname == shard['poison']:
@@ -894,6 +958,8 @@ def replay(inputs, ctx):
         judge_andor(inputs['fam'], inputs['fn'],
                     [_tup(a) for a in inputs['args']], inputs['env'],
                     inputs['spied'], inputs['tags'], ctx)
+    elif kind == 'firstcall':
+        run_firstcall(ctx)
     elif kind == 'flip':
         judge_flip(inputs['poison'], inputs['target'], tuple(inputs['seq']),
                    ctx)
@@ -904,7 +970,7 @@ def replay(inputs, ctx):
 def selftest():
     lazy.selftest()
     assert len(branch_forms(0)) == 18 and len(all_pairs()) == 18 * 19
-    assert len(simple_conditions()) == 25
+    assert len(simple_conditions()) == 30
     assert len(shapes(1, 3)) == 40
     assert lazy.render(build(('I3', 'L', ('N', 'G'), 'L'))) == \
         'IF(A1,NOT(B1>1),C1)'
@@ -927,7 +993,7 @@ TECHNIQUE = ('bounded-exhaustive enumeration of condition shapes x branch '
              'spy functions in its private namespace, against a reference '
              'lazy evaluator; AND/OR judged conditionally on the observed '
              'spy log')
-LEVEL_TEXT = ('Every IF over 25 simple conditions x 342 branch pairs and '
+LEVEL_TEXT = ('Every IF over 30 simple conditions x 342 branch pairs and '
               'over every NOT/AND/OR/IF/comparison condition shape of depth '
               '<= 2 (thorough 3) on <= 3 cells x all assignments of '
               'TRUE/FALSE/0/2/blank, with poisoned unselected branches (error '
